@@ -77,6 +77,16 @@ CASES = [
      '[v_ for t_ in map(tuple, map(reversed, [(1, 2), (3, 4)])) for v_ in t_] + [(1, 2) in zip((1, 3), (2, 4)), (2, 1) in zip((1, 3), (2, 4))]', dict(a='real', b='real')),
     ('columns-to-3d-max', 'X = numpy.array([[a, b, c, d], [e, a, b, c]])\nW = X[:, [0, 2, 3, 1]]\nW.shape = (2, 2, -1)\n'
      'r = numpy.array(W.tolist()).max(axis=0).ravel().tolist() + W[1].ravel().tolist() + list(W.shape)', dict(a='real', b='real', c='real', d='real', e='real')),
+    ('sort-mean-vstack-rows-by-argsort', 'v = numpy.sort([c, a, b])\nm = numpy.vstack([[a, b, c], [d, e, a]]).T\nq = m[m[:, 0].argsort()].T\n'
+     'r = v.tolist() + [float(numpy.mean(numpy.sort([a, b, c, d]))), float(numpy.mean(numpy.array([[a, b], [c, d]])))] + sorted(q[0].tolist()) + [float(q[0][0]), float(numpy.sum(q[1]))] + list(m.shape)', dict(a='real', b='real', c='real', d='real', e='real')),
+    ('mask-selection-sliced-and-averaged', 'x = numpy.sort([a, b, c, d])\nw = numpy.ones(4)\nsel = x[2.0 - numpy.cumsum(w) <= 0][0:2 - x.size % 2]\n'
+     'r = sel.tolist() + [float(numpy.mean(sel))] + x[numpy.array([True, False, True, False])].tolist()', dict(a='real', b='real', c='real', d='real')),
+    ('ndarray-slice-assignment-and-round', 'w = numpy.array([a, b, c, d, e])\nw[:1] = 0\nw[3:] = [a, b]\nw[1:3] *= 2\n'
+     'r = w.tolist() + numpy.array([a, 0.125, 2.5]).round(1).tolist() + (numpy.array([a, b]) - 0.25).round(15).tolist() + w[::-1][:2].tolist()', dict(a='real', b='real', c='real', d='real', e='real')),
+    ('text-of-concrete-containers-and-eval', "d_ = {'tolerance': 0.005, 'target': None, 'mask': {1, 2}}\ntxt = 'VTR with %s' % d_\nkind, kw = txt.split(' with ', 1)\n"
+     "back = eval(kw)\nmsg = txt + ' at %s' % str({(0, 1)})\nhead, tail = msg.rsplit(' at ', 1)\n"
+     "r = [back['tolerance'], len(back['mask']), int(back['target'] is None), int(kind == 'VTR'), int(head == txt), len(eval(tail)), int((0, 1) in eval(tail)), a]", dict(a='real')),
+    ('exec-compile-of-concrete-text', "ns = {'v': a}\ncode = compile('w = v * 2; from math import sqrt as root', '<string>', 'exec')\nexec(code, ns)\nr = [ns['w'], float(ns['root'](4.0))]", dict(a='real')),
     ('symbolic-int-array-index', 'S = numpy.array([-1.0, 0.0, 2.0])\ncnt = numpy.sum(a > S)\nlo = max(0, cnt - 1)\nr = S[numpy.array([lo, lo])].tolist() + [int(cnt)]', dict(a='real')),
 ]
 
